@@ -43,9 +43,9 @@ FLOORS = {
     "quick": {"evaluations": 3000, "distinct": 2500,
               "counters": {"schedules": 3000, "task_outputs_compared": 6000, "cases": 15,
                            "gates_released": 12000, "schedules_fresh_env": 150}},
-    "thorough": {"evaluations": 60000, "distinct": 50000,
-                 "counters": {"schedules": 60000, "task_outputs_compared": 120000, "cases": 200,
-                              "gates_released": 250000, "schedules_fresh_env": 2000}},
+    "thorough": {"evaluations": 120000, "distinct": 120000,
+                 "counters": {"schedules": 120000, "task_outputs_compared": 300000, "cases": 70,
+                              "gates_released": 1500000, "schedules_fresh_env": 6000}},
 }
 
 
